@@ -92,6 +92,22 @@ func injCatalogue(seed int64, nSoup int) []injection {
 	}
 	c = append(c, injection{ID: "conv_second_result_not_error", Stage: "resolve", Must: "reject", Pos: "note", Slot: "note", Note: ":conv CvII2 A",
 		Decls: "func CvII2(a int) (int, int) { return a, a }\n"})
+	// getter methods of every arity in the source position of :map and :conv
+	for p := 0; p <= 1; p++ {
+		for r := 0; r <= 3; r++ {
+			ps := []string{"a0 int"}[:p]
+			rs := []string{"int", "error", "int"}[:r]
+			body := []string{"", "return 0", "return 0, nil", "return 0, nil, 0"}[r]
+			name := fmt.Sprintf("GtP%dR%d", p, r)
+			decl := fmt.Sprintf("func (s *BS) %s(%s) (%s) { %s }\n", name, strings.Join(ps, ", "), strings.Join(rs, ", "), body)
+			c = append(c, injection{ID: "map_" + strings.ToLower(name), Stage: "build", Must: "either", Pos: "note", Slot: "note",
+				Note: ":map " + name + "() A", Decls: decl})
+			c = append(c, injection{ID: "conv_" + strings.ToLower(name), Stage: "build", Must: "either", Pos: "note", Slot: "note",
+				Note: ":conv CvOK " + name + "() A", Decls: decl})
+			c = append(c, injection{ID: "mapbare_" + strings.ToLower(name), Stage: "build", Must: "either", Pos: "note", Slot: "note",
+				Note: ":map " + name + " A", Decls: decl})
+		}
+	}
 	// hooks of every arity
 	for p := 0; p <= 4; p++ {
 		for r := 0; r <= 2; r++ {
